@@ -271,23 +271,37 @@ def _machine(r, p):
         if not any(c.endswith(".update") for c in calls):
             ok = False
             r.fail("C11.machine", st.key + ":branch-without-update", "a branch of the stamper does not advance the tag state machine", st.loc(b[0] if b else loop))
-    # vsg_on: stamp before update (the on-comment itself is still tagged); off/next-line: update before stamp
-    for s in loop.body:
-        if isinstance(s, ast.If):
-            cur = s
-            while True:
-                test = norm(cur.test)
-                order = [callee_text(c) for st_ in cur.body if isinstance(st_, ast.Expr) and isinstance(st_.value, ast.Call) for c in [st_.value]]
-                if "vsg_on" in test and order and not order[0].endswith("set_code_tags"):
-                    ok = False
-                    r.fail("C11.machine", st.key + ":on-order", "the vsg_on comment must be stamped before the tag is removed", st.loc(cur))
-                if ("vsg_off" in test or "next_line" in test) and order and not order[0].endswith(".update"):
-                    ok = False
-                    r.fail("C11.machine", st.key + ":off-order", "the vsg_off / disable_next_line comment must update the state before it is stamped", st.loc(cur))
-                if len(cur.orelse) == 1 and isinstance(cur.orelse[0], ast.If):
-                    cur = cur.orelse[0]
-                else:
-                    break
+    # vsg_on: stamp before update (the on-comment itself is still tagged); off/next-line: update before stamp.
+    # Decided per branch from the conditions that hold there (either polarity / nesting), not from the chain's layout.
+    fm = Facts(st.node)
+
+    def positive(node):
+        out = set()
+        for t, pol in fm.conds_at(node):
+            t = t.strip()
+            while t.startswith("not "):
+                t = t[4:].strip()
+                if t.startswith("(") and t.endswith(")"):
+                    t = t[1:-1].strip()
+                pol = not pol
+            if pol:
+                out.add(t)
+        return frozenset(out)
+
+    stamps = [c for c in ast.walk(loop) if isinstance(c, ast.Call) and callee_text(c) == "%s.set_code_tags" % tok]
+    updates = [c for c in ast.walk(loop) if isinstance(c, ast.Call) and callee_text(c).endswith(".update")]
+    for sc in stamps:
+        pos = positive(sc)
+        same = [u for u in updates if positive(u) == pos]
+        if not same:
+            continue
+        stamp_first = sc.lineno < same[0].lineno
+        if any("vsg_on" in t for t in pos) and not stamp_first:
+            ok = False
+            r.fail("C11.machine", st.key + ":on-order", "the vsg_on comment must be stamped before the tag is removed", st.loc(sc))
+        if any(("vsg_off" in t or "next_line" in t) for t in pos) and stamp_first:
+            ok = False
+            r.fail("C11.machine", st.key + ":off-order", "the vsg_off / disable_next_line comment must update the state before it is stamped", st.loc(sc))
     # the machine's tag lists are sets kept in lists: `remove` deletes ONE occurrence (list.remove), so every writer
     # that grows them must keep them duplicate-free, otherwise a rule switched off twice stays off after vsg_on
     for fi in p.functions.values():
